@@ -593,6 +593,31 @@ func syncProto(repo string) (string, string, error) {
 		return true
 	})
 
+	// structural fact 15: RoundTrip (roundtrip.go) hands an Alt-Svc header to handleAltSvc only for https requests
+	// (the if statement containing the call tests req.URL.Scheme == "https")
+	rtf, err := parseGo(repo, "roundtrip.go")
+	if err != nil {
+		return "", "", err
+	}
+	altHTTPSOnly := false
+	ast.Inspect(rtf, func(x ast.Node) bool {
+		is, ok := x.(*ast.IfStmt)
+		if !ok || !containsCall(is.Body, "t", "handleAltSvc") {
+			return true
+		}
+		ast.Inspect(is.Cond, func(y ast.Node) bool {
+			if be, ok := y.(*ast.BinaryExpr); ok && be.Op == token.EQL {
+				if bl, ok := be.Y.(*ast.BasicLit); ok && bl.Value == `"https"` {
+					if se, ok := be.X.(*ast.SelectorExpr); ok && se.Sel.Name == "Scheme" {
+						altHTTPSOnly = true
+					}
+				}
+			}
+			return true
+		})
+		return true
+	})
+
 	var sb strings.Builder
 	sb.WriteString("(* GENERATED by harness/c12 gosync from transport.go, client.go, internal/http2/http2.go,\n   internal/http3/server.go, internal/http3/roundtrip.go - do not edit *)\n")
 	sb.WriteString("From ReqV Require Import Lib.Bytes.\nImport ListNotations.\n\n")
@@ -619,6 +644,7 @@ func syncProto(repo string) (string, string, error) {
 	fmt.Fprintf(&sb, "(* connectMethod.key(): the target address is dropped only for plain-http targets behind a proxy (%d guarded clearing(s)) *)\nDefinition pool_key_keeps_https_target : bool := %s.\n", nClear, hk.CoqBool(keyOK && hasAddr))
 	fmt.Fprintf(&sb, "(* netutil.AuthorityKey = scheme + \"://\" + AuthorityAddr(scheme, host): the Alt-Svc bookkeeping is keyed by host AND port *)\nDefinition altsvc_key_has_port : bool := %s.\n", hk.CoqBool(keyHasPort))
 	fmt.Fprintf(&sb, "(* Transport.Clone: the clone's middleware chain ends in the clone's own roundTrip *)\nDefinition clone_middleware_bound_to_clone : bool := %s.\n", hk.CoqBool(mwClone && mwSeen))
+	fmt.Fprintf(&sb, "(* RoundTrip: an Alt-Svc header is considered only on the response to an https request *)\nDefinition altsvc_https_only : bool := %s.\n", hk.CoqBool(altHTTPSOnly))
 	return "ProtoTables.v", sb.String(), nil
 }
 
